@@ -1294,7 +1294,7 @@ def hashmap_remove(ctx):
     return Agg('Option', {}, simp(z3.If(p, BV(1, 64), BV(0, 64))), {1: {0: old}}, ex.si.enums['Option'])
 
 
-@contract(r'^<(.+) as Into<\1>>::into$|^<(.+) as From<\2>>::from$')
+@contract(r'^<(.+) as (?:std::convert::|core::convert::)?Into<\1>>::into$|^<(.+) as (?:std::convert::|core::convert::)?From<\2>>::from$')
 def into_identity(ctx):
     return ctx.args[0]
 
@@ -1511,9 +1511,40 @@ def value_eq(ex, st, a, b, depth=0):
 
 @contract(r'^<.* as PartialEq(?:<.*>)?>::(eq|ne)$')
 def generic_partial_eq(ctx):
+    # a hand-written `impl PartialEq` in the repository wins over structural equality
+    ex = ctx.ex
+    eq_callee = re.sub(r'::ne$', '::eq', ctx.callee)
+    try:
+        target = ex.db.resolve(eq_callee, ctx.fr.fn, ex)
+    except Exception:
+        target = None
+    if target is not None:
+        if ctx.callee.endswith('::eq'):
+            from engine import Push
+            return Push(target, ctx.args)
+        r = ex.call_sub_merge(ctx.st, target, ctx.args)
+        if r is None:
+            return NotImplemented
+        return Bool(simp(z3.Not(r.t)))
     e = value_eq(ctx.ex, ctx.st, ctx.args[0], ctx.args[1])
     if e is None:
         return NotImplemented
     if ctx.callee.endswith('::ne'):
         e = z3.Not(e)
     return Bool(simp(e))
+
+
+@contract(r'^core::num::<impl (i8|i16|i32|i64|isize|u8|u16|u32|u64|usize)>::checked_(div|rem)$|^core::num::checked_(div|rem)$')
+def int_checked_div(ctx):
+    a, b = ctx.args
+    ex = ctx.ex
+    is_div = 'checked_div' in ctx.callee
+    bits, sg = a.bits, a.signed
+    zero = b.t == BV(0, bits)
+    ovf = z3.And(a.t == BV(1 << (bits - 1), bits), b.t == BV((1 << bits) - 1, bits)) if sg else z3.BoolVal(False)
+    bad = z3.Or(zero, ovf)
+    if sg:
+        val = (a.t / b.t) if is_div else z3.SRem(a.t, b.t)
+    else:
+        val = z3.UDiv(a.t, b.t) if is_div else z3.URem(a.t, b.t)
+    return Agg('Option', {}, simp(z3.If(bad, BV(0, 64), BV(1, 64))), {1: {0: Int(simp(val), bits, sg)}}, ex.si.enums['Option'])
